@@ -24,7 +24,7 @@ PLAN = {
     "thorough": {"shards": 16, "shard_timeout": 3600, "case_timeout": 90, "steps": 2000000, "runs": 75000, "max_case_timeouts": 10},
 }
 THRESHOLDS = {
-    "quick": {"elitism_applications": 1400, "with_ties": 400, "minimising": 400, "iterator_inputs": 300, "multi_objective": 200, "generations_with_elitism_slot": 300, "runs": 50, "with_infinite_values": 200, "with_near_equal_values": 200, "multi_objective_runs": 15, "runs_with_elitism_after_a_sibling": 20, "runs_with_lexicase_sibling": 8},
+    "quick": {"elitism_applications": 1400, "with_ties": 400, "minimising": 400, "iterator_inputs": 300, "multi_objective": 200, "generations_with_elitism_slot": 300, "runs": 50, "with_infinite_values": 200, "with_near_equal_values": 200, "multi_objective_runs": 15, "runs_with_elitism_after_a_sibling": 20, "runs_with_lexicase_sibling": 8, "populations_scored_under_the_opposite_direction_first": 300},
     "thorough": {"elitism_applications": 38000, "generations_with_elitism_slot": 10000},
 }
 
@@ -40,7 +40,7 @@ def gen_cases(tier, seed):
         elif style < 0.3:  # values that only differ far behind the decimal point
             pool = [1e-6, 4e-6, 1.0, 1.000001, 0.99999951, 5e-324, 0.0, -0.0]
         vals = [rng.choice(pool) for _ in range(n)]
-        yield {"kind": "step", "n": n, "values": vals, "minimize": rng.random() < 0.5, "k": rng.randint(1, n), "form": rng.choice(["list", "iterator", "list"]), "multi": rng.random() < 0.25, "evaluated": rng.random() < 0.6, "seed": rng.randrange(10**6)}
+        yield {"kind": "step", "n": n, "values": vals, "minimize": rng.random() < 0.5, "k": rng.randint(1, n), "form": rng.choice(["list", "iterator", "list"]), "multi": rng.random() < 0.25, "evaluated": rng.random() < 0.6, "other_direction_first": rng.random() < 0.2, "seed": rng.randrange(10**6)}
     for i in range(PLAN[tier]["runs"]):
         yield {"kind": "run", "pop": rng.choice([3, 4, 5, 8, 10, 20]), "gens": rng.randint(5, 40 if tier == "thorough" else 15), "minimize": rng.random() < 0.5, "weights": [rng.choice([1, 2, 5, 10]), rng.choice([1, 5, 50, 90])], "repr": rng.choice(["tree", "ge"]), "inner": rng.choice(["mut", "cx+mut", "novelty"]), "objectives": 1, "elitism_at": 0, "seed": rng.randrange(10**6)}
     for i in range(PLAN[tier]["runs"] // 2):
@@ -85,6 +85,13 @@ def run_step(case, rec):
         return -v if case["minimize"] else v
 
     ev = SequentialEvaluator()
+    other = None
+    if case.get("other_direction_first") and not case["multi"]:
+        # the same individuals were scored before under ANOTHER problem: same fitness function object, opposite direction
+        # (a sweep over both directions on a fixed population); that problem stays alive
+        other = SingleObjectiveProblem(fit, minimize=not case["minimize"])
+        SequentialEvaluator().evaluate(other, inds)
+        rec.count("populations_scored_under_the_opposite_direction_first")
     if case["evaluated"]:
         ev.evaluate(prob, inds)
     arg = list(inds) if case["form"] == "list" else iter(list(inds))
@@ -124,6 +131,7 @@ def run_step(case, rec):
         return
     rec.distinct_add([sorted(case["values"]), case["minimize"], case["k"], case["form"], case["multi"]])
     rec.sample(dict(wit, kept=[fit.table[id(o.get_phenotype())] for o in out]), cap=4)
+    _ = other  # kept alive until here
 
 
 def run_run(case, rec):
